@@ -9,7 +9,9 @@ from . import matrix_common as mc
 
 FORMULAS = ["center(a)", "scale(a) + A", "a:A + b", "poly(a, 2) + B", "b + C(A, contr.sum):center(a)", "a + z", "center(a):A + z",
             # a back-tick quoted column used by several Python factors of one build (its sanitised alias is per evaluation)
-            "center(`x 1`) + scale(`x 1`)", "`x 1` + scale(`x 1`):A + {`x 1` * b}"]
+            "center(`x 1`) + scale(`x 1`)", "`x 1` + scale(`x 1`):A + {`x 1` * b}",
+            # ... next to a genuine column that looks like its sanitised alias
+            "scale(`x 1`) + center(x_1) + {`x 1` * x_1}"]
 Z_NULLS_D2 = [1, 3]  # data set 2 carries NaN in the concrete column z at these rows; data set 1 is complete
 OPS = ["M1", "M2", "S1", "S2", "U1", "U2", "F1", "F2"]
 OPS3 = ["M3", "U3", "F3"]  # data set 3: the kinds of a and A are swapped (a categorical, A numeric)
